@@ -167,6 +167,13 @@ def run(ck, P):
     node_holders(ck, P, X, "C12.2-LEN", ST, "_stack", "stack_elem", {"data"})
     node_holders(ck, P, X, "C12.2-LEN", L, "_list", "list_node", {"data"})
 
+    # lengths are exact for every number of elements: the counters are as wide as the number of elements that can exist
+    for (rec_, fld_) in (("_queue", "len"), ("_stack", "len"), ("_list", "len")):
+        fd_ = P.field(rec_, fld_)
+        ck.ob("C12.2-LEN", "Lib/structs:%s.%s width" % (rec_, fld_), fd_.get("size", 0) >= 8,
+              "%s.%s is %d bytes wide" % (rec_, fld_, fd_.get("size", 0)) + ("" if fd_.get("size", 0) >= 8 else
+              ": the length wraps to 0 after %d elements — the container then looks empty although it holds them (peek/pop refuse, clear stops early, "
+              "nodes leak)" % (1 << (8 * fd_.get("size", 0)))), nontrivial=False)
     ck.rule("C12.2-DTOR", "R-WHO-CALLS: the element destructor is invoked only by the removing operations, once (not in a loop), under "
             "a non-NULL test; operations handing the element back (dequeue/pop/peek/find/itr_get_data) never reach it; "
             "remove/clear/free/itr_remove always can", floor=18)
@@ -352,6 +359,12 @@ def run(ck, P):
             rets_ = [e for e in evs if e.kind == "ret" and e.e is not None]
             if not rets_ or (cval(rets_[-1].e) is not None and cval(rets_[-1].e) < 0):
                 continue
+            rv0_ = strip(rets_[-1].e)
+            if rv0_["k"] == "var" and rv0_.get("vk") == "local":
+                # a result variable: the constant it holds at the end of this path (single-exit style)
+                _st, _val = rules.path_final_const(f, path, rv0_["name"])
+                if _val is not None and _val < 0:
+                    continue
             nrm += 1
             if not any(e.kind == "assign" and S(e.lhs) == "itr->removed" and cval(e.rhs) == 1 for e in evs):
                 badm = path
